@@ -121,6 +121,7 @@ func runC42(c *Ctx) []Obligation {
 			c.edgeMust(P, "write."+name+".signer-key-written", w.fn, `^nonnil\(`+w.res+`\.Result\.Signer\)$`, true, `^`+set+w.batch+`, types\.keyForSigner\(`+w.res+`\)`, 1, "an indexed result with a signer gets its signer key"),
 			c.edgeMust(P, "write."+name+".recipient-key-written", w.fn, `^nonnil\(`+w.res+`\.Result\.Recipient\)$`, true, `^`+set+w.batch+`, types\.keyForRecipient\(`+w.res+`\)`, 1, "an indexed result with a recipient gets its recipient key"),
 			c.edgeMust(P, "write."+name+".height-key-written", w.fn, `^lt\(`+w.res+`\.Result\.Code, 10\)$`, false, `^`+set+w.batch+`, types\.keyForHeight\(`+w.res+`\)`, 1, "every indexed result gets its height key"),
+			c.edgeMust(P, "write."+name+".non-auth-results-indexed", w.fn, `^eq\("auth", `+w.res+`\.Result\.Codespace\)$`, false, `^`+set+w.batch+`, types\.keyForHeight\(`+w.res+`\)`, 1, "a result outside the auth codespace (i.e. one that got past the ante handler) is always indexed"),
 			c.edgeMust(P, "write."+name+".result-stored", w.fn, `^nonnil\(\(\*codec\.Codec\)\.MarshalBinaryBare\(types\.cdc, `+w.res+`, 0\)#1\)$`, false, `^`+set+w.batch+`, `+hash+`, `, 1, "every indexed result is stored under its hash"),
 		)
 	}
@@ -150,5 +151,32 @@ func runC42(c *Ctx) []Obligation {
 		c.twins(P, "twins.query", "(*types.TransactionIndexer).signerQuery", "(*types.TransactionIndexer).recipientQuery", s2r, "a recipient search is a signer search over the recipient index"),
 	)
 	out = append(out, c.edgeMust(P, "page.every-entry-counted", "(*types.TransactionIndexer).getByPrefix", `^invoke github\.com/tendermint/tm-db\.Iterator\.Valid\(`+it+`\)$`, true, `store:^&var:total = \(var:total \+ 1\)$ || ret:^nil ; 0 ; `, 1, "every entry in range is counted into the total (or the query fails)"))
+	return out
+}
+
+// indexerSkipRows (C16): the duplicate check looks a transaction up by hash in the indexer, so
+// the only results the indexer may leave out are the ones that provably changed nothing: ante-handler
+// failures, i.e. auth codespace AND code below AnteHandlerMaxError. Every other result must be stored
+// under its hash. Stated per branch, and seen through a predicate helper if the guard is moved into one.
+func indexerSkipRows(c *Ctx, P string) []Obligation {
+	var out []Obligation
+	set := `invoke github\.com/tendermint/tm-db\.Batch\.Set\(`
+	batch := `invoke github\.com/tendermint/tm-db\.DB\.NewBatch\(t\.store\)`
+	for _, w := range []struct{ fn, res string }{
+		{"(*types.TransactionIndexer).Index", `result`},
+		{"(*types.TransactionIndexer).AddBatch", `b\.Ops\[\(phi:rangeindex \+ 1\)\]`},
+	} {
+		hash := `\(github\.com/tendermint/tendermint/types\.Tx\)\.Hash\(` + w.res + `\.Tx\)`
+		name := w.fn[strings.LastIndex(w.fn, ".")+1:]
+		stored := `^` + set + batch + `, ` + hash + `, `
+		// the record is written right after the result is encoded; only an encoding failure (which fails
+		// the whole call) lies between the two
+		must := `^\(\*codec\.Codec\)\.MarshalBinaryBare\(types\.cdc, ` + w.res + `, 0\)`
+		out = append(out, c.edgeMust(P, "indexer."+name+".encoded-result-recorded-under-hash", w.fn, `^nonnil\(\(\*codec\.Codec\)\.MarshalBinaryBare\(types\.cdc, `+w.res+`, 0\)#1\)$`, false, stored, 1, "once encoded, the result is recorded under the hash of the raw bytes"))
+		out = append(out,
+			c.edgeMust(P, "indexer."+name+".skips-only-auth-codespace", w.fn, `^eq\("auth", `+w.res+`\.Result\.Codespace\)$`, false, must, 1, "a result outside the auth codespace is recorded under its hash, so the same bytes are refused later"),
+			c.edgeMust(P, "indexer."+name+".skips-only-ante-codes", w.fn, `^lt\(`+w.res+`\.Result\.Code, 10\)$`, false, must, 1, "a result with a code at or above AnteHandlerMaxError is recorded under its hash"),
+		)
+	}
 	return out
 }
